@@ -440,6 +440,26 @@ theorem C23_rotation (r : Registry) (now : Nat) (fk : Bytes) (fiv : Nat) (id : N
         · have := hids k' (List.mem_filter.mp h).1; omega
         · simp at h; subst h; exact Nat.le_refl _
 
+theorem le_maxNat {l : List Nat} {x : Nat} (h : x ∈ l) : x ≤ maxNat l := by
+  induction l with
+  | nil => cases h
+  | cons y ys ih =>
+    simp only [maxNat]
+    rcases List.mem_cons.mp h with e | e
+    · subst e; exact Nat.le_max_left _ _
+    · exact Nat.le_trans (ih e) (Nat.le_max_right _ _)
+
+/-- The side condition of `C23_rotation` holds for every registry read from a file (and
+    trivially for a fresh one): no key id exceeds `nextKeyID`. -/
+theorem C23_rotation_ids_of_read (E : BlockFn) (master : Bytes) (rot : Int) (f : RegFile) (r : Registry)
+    (h : readKeyRegistry E master rot f = .ok r) : ∀ k ∈ r.dataKeys, k.id ≤ r.nextKeyID := by
+  unfold readKeyRegistry at h
+  split at h
+  · cases h
+  · cases h
+    intro k hk
+    exact le_maxNat (List.mem_map_of_mem hk)
+
 /-- **Master-key rotation** (`badger rotate`): reading the registry with the old key and
     rewriting it with the new key succeeds, touches only the registry, and a subsequent open
     with the new key sees exactly the same data keys (same ids, same key material) — so every
